@@ -21,10 +21,25 @@ REQUIRED = [
     "getitem_refines", "getslice_refines", "getmask_refines", "setitem_scalar_slice_refines",
     "setitem_scalar_int_refines", "setitem_vector_slice_refines", "setitem_vector_length_mismatch",
     "setitem_scalar_mask_refines", "setitem_vector_mask_refines", "ifelse_refines", "mask_length_mismatch",
+    # the global invariant (clause 11) and derived views (clause 12)
+    "step_preserves_WF", "no_oob_current", "derived_view_readonly", "readonly_is_per_object",
+    # functional theorems for the operations that were only correspondence-checked (clauses 7, 9, 10)
+    "ifelse_scalar_refines", "setitem_vector_mask_packed_refines", "iadd_scalar_refines", "iaddVector_refines",
+    "iaddVector_masked_refines", "setitem_scalar_mask_on_masked_refines",
+    "maskPositions_spec", "maskPositions_sorted", "select_eq_zip_filter",
     "error_leaves_state", "convert_refines", "setitem_scalar_mask_on_masked_ignores_mask",
+    # component arrays (.x .y .z .w / .r .g .b .a / .min .max): intended behaviour + refutation for the getters as first examined
+    "component_refines", "component_protected", "component_asWritten_drops_mask",
+    "component_asWritten_empty_mask_reads_out_of_bounds",
     "array2d_item_refines", "array2d_getslice_forward_refines", "array2d_forward_slices_accepted", "matrix_row_refines",
+    "varray_getitem_refines", "varray_size_refines", "varray_getslice_refines", "varray_forward_slices_accepted",
+    "varray_getmask_refines", "varray_readonly_raises",
     "string_table_bijection", "string_table_intern", "string_array_reads_last_stored", "string_array_create_repr",
-    "buffer_len_is_shape_times_itemsize", "from_buffer_exact", "from_buffer_never_overruns",
+    "string_vector_assign_repr",
+    "buffer_len_is_shape_times_itemsize", "from_buffer_exact", "from_buffer_exact_repaired", "from_buffer_never_overruns",
+    "from_buffer_reads_inside", "from_buffer_contiguous_memcpy_exact",
+    # ...ArrayFromBuffer as it is after 529722b (flat memcpy of a strided view): kernel-checked refutation of the exact-copy statement
+    "from_buffer_memcpy_wrong_elements", "from_buffer_memcpy_reversed_reads_out_of_bounds", "from_buffer_exact_false_for_memcpy",
     # former defects: refutations for the as-written variants, kept as documentation / regression witnesses
     "readonly_invariant_asWritten_false", "readonly_invariant_asWritten_false_vector", "witness_masked_inplace_trace",
     "slice_accepted_forward", "slice_rejected_only_if", "slice_any_sign_false", "slice_any_sign_witnesses",
@@ -42,6 +57,10 @@ FIX = {
     "buffer-nbytes": "PyImathBufferProtocol.cpp numBytes(): multiply by FixedArrayWidth<T>::value (product of the exported shape x atomicSize)",
     "buffer-export-readonly-aborts": "PyImathBufferProtocol.cpp SharedBufferAPI/CopyBufferAPI::buffer(): use unchecked_index(0) (the throwing non-const direct_index runs inside the C getbuffer slot -> std::terminate)",
     "frombuffer-accepts-mismatched": "PyImathBufferProtocol.cpp fixedArrayFromBuffer: compare view.format with PyFormat<T>(), view.itemsize with the atomic size and view.len with shape[0]*sizeof(T) before the memcpy",
+    "c19_buffers:fixedArrayFromBuffer:noncontiguous-source": "PyImathBufferProtocol.cpp fixedArrayFromBuffer: copy with PyBuffer_ToContiguous (dst, &view, view.len, 'C') instead of memcpy (honours the strides of the view that was requested with PyBUF_STRIDES), or request PyBUF_C_CONTIGUOUS and refuse other views",
+    "c19_harness:ArrayComponent_get:masked-reference": "PyImathFixedArray.h: add a 'member view' constructor FixedArray(T *member, Py_ssize_t stride, FixedArray<S> &other) that carries other's mask indices / unmaskedLength / handle / writable, and use it (with unchecked_direct_index(0)) in Vec2Array_get, Vec3Array_get, Vec4Array_get, Color3Array_get, Color4Array_get, QuatArray_get, BoxArray_get",
+    "matrix-row-outlives-owner": "PyImathFixedMatrix.h register_: the integer __getitem__ (a FixedArray on the matrix's storage) needs return_internal_reference<> (or with_custodian_and_ward_postcall<0,1>) so that the row keeps the matrix alive",
+    "c19_harness:FixedVArray.SizeHelper.__getitem__:overload-order": "PyImathFixedVArray.cpp register_: Boost.Python tries overloads in REVERSE registration order and getitem_slice takes a PyObject* (matches anything): register getitem_slice FIRST, then getitem_mask, then getitem (the order FixedVArray's own __getitem__ uses), so that va.size[i] is an int and va.size[mask] works",
     "varray-row-outlives-owner": "PyImathFixedVArray.cpp:828 __getitem__ policy: with_custodian_and_ward_postcall<0,1> (result keeps self alive), as the comment above getitem demands",
 }
 
@@ -61,8 +80,15 @@ def pyrepro(prog):
         t = l.split()
         n = "v%d" % len(names)
         v = lambda k: "v%s" % t[k]
-        if t[0] in ("alloc", "alloci"):
+        if t[0] in ("alloc", "alloci", "allocc"):
             out.append("%s = A([%s])" % (n, "" if t[1] == "-" else t[1])); names.append(n)
+        elif t[0] == "allocw":
+            w = int(t[1]); c = [] if t[2] == "-" else t[2].split(",")
+            out.append("%s = imath.V%diArray(%d)" % (n, w, len(c) // w))
+            out += ["%s[%d] = imath.V%di(%s)" % (n, i, w, ", ".join(c[w * i:w * i + w])) for i in range(len(c) // w)]
+            names.append(n)
+        elif t[0] == "comp":
+            out.append("%s = %s.%s" % (n, v(1), "xyzw"[int(t[2])])); names.append(n)
         elif t[0] == "getslice":
             out.append("%s = %s[%s]" % (n, v(1), idx(t[2]))); names.append(n)
         elif t[0] == "getmask":
@@ -93,7 +119,7 @@ def pyrepro(prog):
             out.append("%s += %s" % (v(1), t[2]))
         elif t[0] == "iaddv":
             out.append("%s += %s" % (v(1), v(2)))
-    out.append("print([list(x) for x in (%s)])" % ", ".join(names))
+    out.append("print([[(e if isinstance(e, int) else tuple(e)) for e in x] for x in (%s)])" % ", ".join(names))
     return "\n".join(out)
 
 
@@ -119,7 +145,7 @@ class Corr:
             t = l.split()
             if not t or t[0] == "reset":
                 continue
-            self.opcount[t[0] if t[0] not in ("d2", "m", "st") else t[0] + " " + t[1]] += 1
+            self.opcount[t[0] if t[0] not in ("d2", "m", "st", "v") else t[0] + " " + t[1]] += 1
             if r.startswith("err "):
                 self.errcount[r.split(";")[0][4:]] += 1
 
@@ -155,7 +181,8 @@ class Corr:
         for (pno, kind, k, m, r) in oobs:
             prog = c19lib.program_lines(index, lines, pno)[:k + 1]
             self.oob[prog[-1].split()[0] if "err oob" in m else "dump-after-" + prog[-1].split()[0]] += 1
-            key = "convert-ctor-from-masked" if any(l.startswith("convert") for l in prog) else "oob:" + prog[-1].split()[0]
+            key = ("convert-ctor-from-masked" if any(l.startswith("convert") for l in prog) else
+                   c19lib.COMP_KEY if prog[-1].startswith("comp ") else "oob:" + prog[-1].split()[0])
             self.note_key(key, prog, "model: " + m, r, cls, "corr:%s:%s:model=real" % (name, cls))
         if spec:
             rc, sp = c19lib.run_spec(text)
@@ -301,6 +328,8 @@ def buffers(chk):
                  "getbuffer arithmetic of the model (either variant) does not reproduce memoryview() of the real module",
                  {"agree": agree, "cases": total}, True)
     chk.count(total, total)
+    chk.oblige("buffer:numBytes-variant-is-fromShape(BufCfg.repaired)", "correspondence", variant == 1,
+               chk.extra["buffer_numBytes_variant"])
     chk.oblige("buffer:len=prod(shape)*itemsize", "spec-correspondence", not incons, sorted(incons)[:20] or None)
     for name, (k, r) in sorted(incons.items()):
         cname = name.split(".")[0].split("(")[0]
@@ -311,6 +340,40 @@ def buffers(chk):
                  {"python": "import imath; mv = memoryview(imath.%s(%d)); print(mv.nbytes, mv.shape, mv.itemsize)" % (cname, k)
                   if "." not in name else "import imath; mv = memoryview(imath.%s(4).%s); print(mv.nbytes, mv.shape, mv.itemsize)" % (
                       cname, name.split(".")[1].split("(")[0]), "observed": r, "fix": FIX["buffer-nbytes"]}, True)
+    # ---- INDEPENDENT expectation (class name -> element kind x size x components) and contents, lengths 0,1,2,5
+    rc, out = lib.sh([pyimath.PYTHON, os.path.join(c19lib.HPY, "c19_buffers.py"), "export-check"], env=pyimath.env(), timeout=600)
+    try:
+        ec = json.loads(out[out.index("{"):])
+    except Exception:
+        ec = None
+        chk.oblige("buffer:export=independent-expectation", "correspondence", False, out[-500:])
+        chk.fail("buffer:export=independent-expectation", "buffer-export-harness", "buffer export-check harness failed",
+                 {"output": out[-2000:]}, False)
+    if ec is not None:
+        missing = sorted(set(sup) - set(ec["classes"]) - set(ec["unknown"]))
+        okx = not ec["bad"] and not ec["unknown"] and not missing
+        chk.oblige("buffer:export=independent-expectation(format,itemsize,ndim,shape,strides,nbytes,contents,write-through)",
+                   "spec-correspondence", okx,
+                   {"cases": ec["cases"], "classes": len(ec["classes"]), "bad": [b["what"] for b in ec["bad"]][:8],
+                    "classes_without_expectation": ec["unknown"] + missing})
+        chk.count(ec["cases"], ec["cases"])
+        chk.extra["buffer_export_check"] = {"cases": ec["cases"], "classes": {c: v["layout"] + [v["components"]] for c, v in ec["classes"].items()}}
+        seen = set()
+        for b in ec["bad"]:
+            cname = b["what"].split("(")[0]
+            if cname in seen:
+                continue
+            seen.add(cname)
+            chk.fail("buffer:export=independent-expectation(format,itemsize,ndim,shape,strides,nbytes,contents,write-through)",
+                     "buffer-export-description:" + cname,
+                     "memoryview(%s) does not describe the array's memory: %s differ(s) from what the class name implies "
+                     "(expected %s, got %s)" % (b["what"], ",".join(b["problems"]), b.get("expected"), b.get("got")),
+                     {"python": "import imath; mv = memoryview(imath.%s); print(mv.format, mv.itemsize, mv.shape, mv.strides, mv.nbytes, mv.tobytes())"
+                                % b["what"], "observed": b, "all_bad": [x["what"] for x in ec["bad"] if x["what"].startswith(cname)]}, True)
+        for c in ec["unknown"] + missing:
+            chk.fail("buffer:export=independent-expectation(format,itemsize,ndim,shape,strides,nbytes,contents,write-through)",
+                     "buffer-export-no-expectation:" + c,
+                     "class %s exports a buffer but the check has no independent expectation for it (extend expected_layout)" % c, {}, False)
     # masked references must be refused
     bad = [c for c in sup if "error" not in exp[c].get("masked", {"error": 1})]
     chk.oblige("buffer:masked-reference-refused", "correspondence", not bad, bad or None)
@@ -339,74 +402,189 @@ def buffers(chk):
                  "runs inside the C getbuffer slot) for %d classes, e.g. %s  [fix: %s]" % (len(ro_bad), c0, FIX["buffer-export-readonly-aborts"]),
                  {"python": "import imath; a = imath.%s(3); a.makeReadOnly(); memoryview(a)" % c0, "classes": sorted(ro_bad),
                   "observed": str(ro_bad[c0]), "fix": FIX["buffer-export-readonly-aborts"]}, True)
-    # ...ArrayFromBuffer
-    rc, out = lib.sh([pyimath.PYTHON, os.path.join(c19lib.HPY, "c19_buffers.py"), "from", "safe"], env=pyimath.env(), timeout=600)
+    frombuffer(chk, traits)
+
+
+COPY_MODES = ((0, 0, "asWritten(no checks, memcpy)"), (1, 0, "checked(memcpy of view.len bytes whatever the strides)"),
+              (1, 1, "repairedStrict(non-contiguous views refused)"), (1, 2, "repaired(item-wise copy honouring strides)"))
+FB_KEY = "c19_buffers:fixedArrayFromBuffer:noncontiguous-source"
+
+
+def frombuffer(chk, traits):
+    """...ArrayFromBuffer: model (4 variants) vs real on every source kind; the spec is `bytes(memoryview(source))`"""
+    script = os.path.join(c19lib.HPY, "c19_buffers.py")
+    rc, out = lib.sh([pyimath.PYTHON, script, "from", "safe"], env=pyimath.env(), timeout=900)
     try:
         fb = json.loads(out[out.index("{"):])
     except Exception:
         chk.oblige("buffer:frombuffer", "correspondence", False, out[-500:])
         chk.fail("buffer:frombuffer", "frombuffer-harness", "FromBuffer harness failed", {"output": out[-2000:]}, False)
         return
-    req, meta = [], []
+    herr = [r for r in fb["safe"] if "harness_error" in r]
+    if herr:
+        chk.fail("buffer:frombuffer", "frombuffer-harness", "FromBuffer harness could not build a source", {"first": herr[0]}, False)
     ELEM = {"Int": "int", "Float": "float", "Double": "double"}
-    for r in fb["safe"]:
-        base = r["func"][:-len("ArrayFromBuffer")]
+
+    def ty_of(func):
+        base = func[:-len("ArrayFromBuffer")]
         ct = ELEM.get(base) or "Vec%s<%s>" % (base[1], {"i": "int", "f": "float", "d": "double"}[base[2]])
-        tr = traits.get(ct)
-        if not tr:
-            continue
-        for ck in (0, 1):
-            req.append("buf from %d %d %d %d %d %s %s %d %d %d" % (ck, tr[0], tr[1], tr[2], tr[3], tr[4], r["src_format"] or "NULL",
-                                                                    r["src_itemsize"], r["src_shape0"], r["src_nbytes"]))
-            meta.append((r, ck))
+        return traits.get(ct)
+
+    def req_line(r, ck, mode):
+        tr = ty_of(r["func"])
+        csv = lambda l: ",".join(str(x) for x in l) if l else "-"
+        return "buf from %d %d %d %d %d %d %s %s %d %s %s %d %d %s" % (
+            ck, mode, tr[0], tr[1], tr[2], tr[3], tr[4], r["src_format"] or "NULL", r["src_itemsize"],
+            csv(r["src_shape"]), csv(r["src_strides"]), r["src_off"], r["src_nbytes"], r["src_mem"] or "-")
+
+    def real_line(r):
+        if "error" in r:
+            e = r["error"]
+            kind = ("unsupportedType" if "Unsupported buffer type" in e else
+                    "mismatch" if "does not match the array type" in e else
+                    "notContiguous" if ("contiguous" in e.lower() or e.startswith("BufferError")) else "other:" + e[:60])
+            return "err " + kind
+        return "ok alloc=%d bytes=%s" % (len(r["result_bytes"]) // 2, r["result_bytes"])
+
+    safe = [r for r in fb["safe"] if "harness_error" not in r and ty_of(r["func"])]
+    unsafe = [r for r in fb["unsafe"] if ty_of(r["func"])]
+    allc = safe + unsafe
+    req = [req_line(r, ck, mode) for r in allc for (ck, mode, _) in COPY_MODES]
     rc, ml = c19lib.run_model("\n".join(req) + "\n")
-    agree = {0: 0, 1: 0}
+    nm = len(COPY_MODES)
+    model = {id(r): [ml[i * nm + j].strip() for j in range(nm)] for i, r in enumerate(allc)}
+    agree = [sum(1 for r in safe if model[id(r)][j] == real_line(r)) for j in range(nm)]
+    full = [j for j in range(nm) if agree[j] == len(safe)]
+    v = max(full) if full else max(range(nm), key=lambda j: (agree[j], j))
+    vname = COPY_MODES[v][2]
+    kinds = collections.Counter(r["kind"] + ("" if r["contiguous"] else ":non-contiguous") for r in allc)
+    chk.extra["frombuffer_variant"] = {"decided": vname, "agree": {COPY_MODES[j][2]: agree[j] for j in range(nm)},
+                                       "cases_called_in_process": len(safe), "source_kinds": dict(kinds)}
+    chk.oblige("buffer:frombuffer-model=real(variant %s)" % vname.split("(")[0], "correspondence", bool(full),
+               {"cases": len(safe), "agree": agree[v]})
+    chk.count(len(safe), len(safe))
+    if not full:
+        first = next(r for r in safe if model[id(r)][v] != real_line(r))
+        chk.fail("buffer:frombuffer-model=real(variant %s)" % vname.split("(")[0], "frombuffer-model-mismatch",
+                 "no variant of the FromBuffer model reproduces the real module on every case; best %s, first difference: %s(%s %s n=%s %s) "
+                 "model `%s` real `%s`" % (vname, first["func"], first["kind"], first["typecode"], first["n"], first["extra"],
+                                           model[id(first)][v][:80], real_line(first)[:80]),
+                 {"case": {k: first[k] for k in first if k != "src_mem"}, "model": model[id(first)], "real": real_line(first)}, True)
+    # ---- cases not called in process: the decided variant says what they do
+    pred_reject = [r for r in unsafe if model[id(r)][v].startswith("err ") and "oob" not in model[id(r)][v]]
+    pred_ub = [r for r in unsafe if "oob" in model[id(r)][v]]
+    pred_ok = [r for r in unsafe if model[id(r)][v].startswith("ok")]
+    spec_of = lambda r: {k: r[k] for k in ("func", "kind", "typecode", "n", "rows", "cols", "extra")}
+    outp = {}
+    if pred_reject or pred_ok:
+        rc, o = lib.sh([pyimath.PYTHON, script, "from", "batch"], env=pyimath.env(), timeout=900,
+                       stdin=json.dumps([spec_of(r) for r in pred_reject + pred_ok]))
+        try:
+            res = json.loads(o[o.index("["):])
+            for r, got in zip(pred_reject + pred_ok, res):
+                outp[id(r)] = got
+        except Exception:
+            chk.fail("buffer:frombuffer", "frombuffer-harness-crash",
+                     "the interpreter died on a FromBuffer call the model (variant %s) predicts to be harmless" % vname,
+                     {"tail": o[-600:]}, True)
     accepted_bad = {}
-    exact = 0
-    for (r, ck), line in zip(meta, ml):
-        real = ("err" if "error" in r else "ok alloc")
-        if line.startswith(real):
-            agree[ck] += 1
-        if ck == 1 and "error" not in r and line.startswith("err mismatch"):
+    for r in pred_reject:
+        got = outp.get(id(r))
+        if got is not None and "error" not in got:
             accepted_bad.setdefault(r["func"], r)
-        if ck == 1 and "error" not in r and line.startswith("ok") and r.get("result_bytes") is not None:
-            exact += int(r["result_bytes"] == r["src_bytes"])
-    nfb = len(fb["safe"])
-    v = 0 if agree[0] >= agree[1] else 1
-    chk.extra["frombuffer_variant"] = {"decided": "asWritten" if v == 0 else "checked", "agree_asWritten": agree[0],
-                                       "agree_checked": agree[1], "cases": nfb, "exact_copies_verified": exact,
-                                       "unsafe_cases_not_run_in_process": len(fb["unsafe"])}
-    chk.oblige("buffer:frombuffer-model=real(variant %s)" % ("asWritten" if v == 0 else "checked"), "correspondence",
-               agree[v] == nfb, {"cases": nfb, "agree": agree[v]})
-    chk.count(nfb, nfb)
+    for r in safe:
+        if model[id(r)][3].startswith("err mismatch") and "error" not in r:
+            accepted_bad.setdefault(r["func"], r)
     chk.oblige("buffer:frombuffer-rejects-mismatched-type/size", "spec-correspondence", not accepted_bad,
                sorted(accepted_bad) or None)
     for f, r in sorted(accepted_bad.items()):
-        chk.fail("buffer:frombuffer", "frombuffer-accepts-mismatched:" + f,
+        chk.fail("buffer:frombuffer-rejects-mismatched-type/size", "frombuffer-accepts-mismatched:" + f,
                  "%s accepts a buffer of format %r / itemsize %d (no exception) [fix: %s]" % (f, r["src_format"], r["src_itemsize"],
                                                                                            FIX["frombuffer-accepts-mismatched"]),
                  {"python": "import imath, array; print(len(imath.%s(array.array(%r, [1]*%d))))" % (f, r["typecode"], max(r["n"], 1)),
-                  "observed": r, "fix": FIX["frombuffer-accepts-mismatched"]}, True)
-    # the overrunning direction: model predicts a write past the allocation; run it out of process
-    if chk.thorough and fb["unsafe"]:
-        cases = fb["unsafe"][:: max(1, len(fb["unsafe"]) // 6)][:6]
+                  "observed": {k: r[k] for k in r if k != "src_mem"}, "fix": FIX["frombuffer-accepts-mismatched"]}, True)
+    # ---- THE SPECIFICATION: an accepted source is copied item by item — result == bytes(memoryview(source))
+    ub_run = pred_ub if chk.thorough else [r for i, r in enumerate(pred_ub) if i % max(1, len(pred_ub) // 24) == 0][:24]
 
-        def run1(c):
-            cmd = ["valgrind", "--error-exitcode=9", "-q", "--undef-value-errors=no", pyimath.PYTHON, os.path.join(c19lib.HPY, "c19_buffers.py"), "from", "one"] + \
-                  [str(x) for x in c if x is not None]
-            return c, lib.sh(cmd, env=pyimath.env({"PYTHONMALLOC": "malloc"}), timeout=600)
+    def one(r):
+        return r, lib.sh([pyimath.PYTHON, script, "from", "one", json.dumps(spec_of(r))], env=pyimath.env(), timeout=120)
+    with ThreadPoolExecutor(lib.NCPU) as ex:
+        for r, (rc, o) in ex.map(one, ub_run):
+            try:
+                outp[id(r)] = json.loads(o[o.index("{"):])
+            except Exception:
+                outp[id(r)] = {"crash": rc, "tail": o[-200:]}
+    safe_ids = {id(r) for r in safe}
+    wrong = []       # (case, got) where an accepted source was not copied exactly
+    ncmp = 0
+    for r in allc:
+        got = r if id(r) in safe_ids else outp.get(id(r))
+        if got is None or "error" in got:
+            continue
+        ncmp += 1
+        if "crash" in got or got.get("result_bytes") != r["src_bytes"]:
+            wrong.append((r, got))
+    chk.oblige("buffer:frombuffer-copies-exactly-the-source-items", "spec-correspondence", not wrong,
+               {"accepted_sources_compared": ncmp, "wrong": len(wrong),
+                "model_predicts_out_of_bounds_access(run out of process)": len(ub_run), "of": len(pred_ub)})
+    chk.count(ncmp, ncmp)
+    chk.extra["frombuffer_variant"].update({"accepted_sources_compared_with_bytes(memoryview)": ncmp, "wrong_copies": len(wrong),
+                                            "predicted_out_of_bounds": len(pred_ub), "predicted_out_of_bounds_run": len(ub_run)})
+    chk.oblige("buffer:frombuffer-variant-is-repaired", "correspondence", v >= 2, vname)
+    if wrong or v < 2:
+        nc = [w for w in wrong if not w[0]["contiguous"]]
+        cont = [w for w in wrong if w[0]["contiguous"]]
+        if nc or (v < 2 and not cont):
+            funcs = sorted({w[0]["func"] for w in nc})
+            oobr = [w for w in nc if not w[0]["flat_read_inside"]]
+            ex1 = next((w for w in nc if w[0]["func"] == "IntArrayFromBuffer" and w[0]["kind"] == "slice" and w[0]["n"] == 6
+                        and w[0]["extra"] == [None, None, 2]), nc[0] if nc else None)
+            chk.fail(["buffer:frombuffer-copies-exactly-the-source-items", "buffer:frombuffer-variant-is-repaired"], FB_KEY,
+                     "...ArrayFromBuffer memcpy's view.len bytes from view.buf although it requested a STRIDED view (PyBUF_STRIDES): a "
+                     "non-contiguous source (memoryview slice [::2] / [::-1], imath's own component arrays such as V3fArray.y, a row-sliced "
+                     "2-D view) is accepted and copied as if contiguous — wrong elements, and %d of the %d wrong copies read outside the "
+                     "source's memory (negative or larger-than-item strides); %d functions; decided model variant: %s  [fix: %s]" % (
+                         len(oobr), len(nc), len(funcs), vname, FIX[FB_KEY]),
+                     {"python": "import imath, array\nprint(list(imath.IntArrayFromBuffer(memoryview(array.array('i',[1,2,3,4,5,6]))[::2])))"
+                                "   # [1, 2, 3]; the source's items are [1, 3, 5]\n"
+                                "print(list(imath.IntArrayFromBuffer(memoryview(array.array('i',[1,2,3,4,5,6]))[::-1])))  # reads past the source",
+                      "example": None if ex1 is None else {"case": {k: ex1[0][k] for k in ex1[0] if k != "src_mem"},
+                                                           "result_bytes": ex1[1].get("result_bytes"), "expected(src_bytes)": ex1[0]["src_bytes"]},
+                      "functions": funcs, "wrong_by_source_kind": dict(collections.Counter(w[0]["kind"] for w in nc)),
+                      "theorems": ["from_buffer_memcpy_wrong_elements", "from_buffer_memcpy_reversed_reads_out_of_bounds",
+                                   "from_buffer_exact_false_for_memcpy"], "fix": FIX[FB_KEY]}, True)
+        for (r, got) in cont[:3]:
+            chk.fail("buffer:frombuffer-copies-exactly-the-source-items", "frombuffer-copy-mismatch:" + r["func"],
+                     "%s does not copy a CONTIGUOUS source exactly (%s %s n=%d)" % (r["func"], r["kind"], r["typecode"], r["n"]),
+                     {"case": {k: r[k] for k in r if k != "src_mem"}, "got": got}, True)
+    # the overrunning / over-reading direction under valgrind
+    if chk.thorough and pred_ub:
+        cases = pred_ub[:: max(1, len(pred_ub) // 8)][:8]
+
+        def run1(r):
+            cmd = ["valgrind", "--error-exitcode=9", "-q", "--undef-value-errors=no", pyimath.PYTHON, script, "from", "one",
+                   json.dumps(spec_of(r))]
+            return r, lib.sh(cmd, env=pyimath.env({"PYTHONMALLOC": "malloc"}), timeout=900)
         over = []
-        with ThreadPoolExecutor(6) as ex:
-            for c, (rc, o) in ex.map(run1, cases):
-                if rc == 9 or rc < 0 or "Invalid write" in o:
-                    over.append((c, rc))
-        chk.oblige("buffer:frombuffer-no-overrun(valgrind)", "memory-observation", not over, over[:3] or None)
+        with ThreadPoolExecutor(8) as ex:
+            for r, (rc, o) in ex.map(run1, cases):
+                m = re.search(r"Invalid (read|write) of size \d+", o)
+                if rc == 9 or rc < 0 or m:
+                    over.append((spec_of(r), rc, m.group(0) if m else None))
+        chk.oblige("buffer:frombuffer-no-out-of-bounds-access(valgrind)", "memory-observation", not over, over[:3] or None)
+        chk.extra["frombuffer_variant"]["valgrind_runs"] = len(cases)
         if over:
-            c = over[0][0]
-            chk.fail("buffer:frombuffer", "frombuffer-heap-overflow:" + c[0],
-                     "%s(array.array(%r, n=%d)) writes past the new array (valgrind: invalid write) [fix: %s]" % (
-                         c[0], c[1], c[2], FIX["frombuffer-accepts-mismatched"]),
-                     {"python": "import imath, array; imath.%s(array.array(%r, [1]*%d))" % (c[0], c[1], c[2]), "cases": over}, True)
+            wr = [x for x in over if x[2] and "write" in x[2]]
+            if wr:
+                c = wr[0][0]
+                chk.fail("buffer:frombuffer-no-out-of-bounds-access(valgrind)", "frombuffer-heap-overflow:" + c["func"],
+                         "%s writes past the new array (valgrind: %s) [fix: %s]" % (c["func"], wr[0][2], FIX["frombuffer-accepts-mismatched"]),
+                         {"case": c, "cases": wr}, True)
+            rd = [x for x in over if x not in wr]
+            if rd:
+                chk.fail("buffer:frombuffer-no-out-of-bounds-access(valgrind)", FB_KEY,
+                         "...ArrayFromBuffer reads outside the source buffer for a reversed / strided view (valgrind: %s) [fix: %s]" % (
+                             rd[0][2], FIX[FB_KEY]), {"case": rd[0][0], "cases": rd[:4], "fix": FIX[FB_KEY]}, True)
 
 
 def strings(chk):
@@ -428,30 +606,48 @@ def strings(chk):
         for strs in itertools.product("xyz", repeat=3):
             progs.append(("string-order", ["st new 3 x"] + ["st set %d %s" % (i, strs[i]) for i in perm] +
                           ["st get %d" % i for i in range(3)]))
+    # several arrays with their own tables: slice / mask / array assignment (re-interning ACROSS two tables), ==, slices,
+    # default construction, read-only; StringArray and WstringArray
+    nrand = 600 if chk.thorough else 150
+    for wide in (False, True):
+        progs += list(c19_gen.string_programs(chk.rng, nrand, wide, 5 if chk.thorough else 4))
     text, index = c19_gen.write_stream(progs)
     lines = text.split("\n")
     _, m = c19lib.run_model(text)
     _, r = c19lib.run_real(text)
     _, s = c19lib.run_spec(text)
-    bad_mr, bad_sr, n = [], [], 0
-    for i, l in enumerate(lines):
-        t = l.split()
-        if not t or t[0] != "st":
-            continue
-        n += 1
-        if r[i].strip() != s[i].strip():
-            bad_sr.append((l, s[i], r[i]))
-        if m[i].strip() != r[i].strip():
-            bad_mr.append((l, m[i], r[i]))
-    chk.oblige("corr:stringarray:model=real", "correspondence", not bad_mr, bad_mr[:3] or None)
-    chk.oblige("corr:stringarray:real=python-list", "spec-correspondence", not bad_sr, bad_sr[:3] or None)
+    bad_mr, bad_sr, n, aliased = [], [], 0, 0
+    ops = collections.Counter()
+    for (kind, first, cnt) in index:
+        spec_on = True
+        for i in range(first, first + cnt):
+            l = lines[i]
+            t = l.split()
+            if not t or t[0] not in ("st", "sa", "saw"):
+                continue
+            n += 1
+            ops[t[0] + " " + t[1]] += 1
+            if m[i].strip() != r[i].strip():
+                bad_mr.append((l, m[i], r[i], lines[first:i + 1]))
+                break
+            if s[i].startswith("alias "):
+                aliased += 1
+                spec_on = False          # the right-hand side is the array itself: outside list semantics from here on
+            if spec_on and not c19lib.spec_line_equal(s[i].strip(), r[i].strip()):
+                bad_sr.append((l, s[i], r[i], lines[first:i + 1]))
+                break
+    chk.oblige("corr:stringarray:model=real", "correspondence", not bad_mr, [x[:3] for x in bad_mr[:3]] or None)
+    chk.oblige("corr:stringarray:real=python-list", "spec-correspondence", not bad_sr, [x[:3] for x in bad_sr[:3]] or None)
     chk.count(n, n)
-    chk.extra["string_ops"] = n
+    chk.extra["string_ops"] = {"lines": n, "by_op": dict(ops.most_common()), "programs": len(index),
+                               "self_assignment_lines_outside_list_semantics": aliased}
     if bad_mr:
-        chk.fail("corr:stringarray", "stringarray-model-mismatch", "StringArray differs from the model", {"first": bad_mr[0]}, True)
+        chk.fail("corr:stringarray:model=real", "stringarray-model-mismatch:" + bad_mr[0][0].split()[1], "StringArray differs from the model on `%s`" % bad_mr[0][0],
+                 {"program": bad_mr[0][3], "model": bad_mr[0][1], "real": bad_mr[0][2]}, True)
     if bad_sr:
-        chk.fail("corr:stringarray", "stringarray-reads-wrong-string", "StringArray element does not read back the last string stored",
-                 {"first": bad_sr[0]}, True)
+        chk.fail("corr:stringarray:real=python-list", "stringarray-reads-wrong-string",
+                 "StringArray does not behave like a list of strings on `%s` (an element does not read back the last string stored)" % bad_sr[0][0],
+                 {"program": bad_sr[0][3], "expected(list)": bad_sr[0][1], "real": bad_sr[0][2]}, True)
 
 
 def slices_vs_cpython(chk, cfg=c19lib.CURRENT):
@@ -637,15 +833,23 @@ def lifetimes(chk):
         chk.oblige("lifetimes:no-invalid-access(valgrind, %d release orders)" % len(sub), "memory-observation", not vg_bad,
                    {k: v[0] for k, v in vg_bad.items()} or None)
     scen = sorted({k[0] for k in bad} | set(vg_bad))
+    done_keys = set()
     for sc in scen:
-        key = "varray-row-outlives-owner" if sc == "varray" else "lifetime:" + sc
+        key = ("varray-row-outlives-owner" if sc == "varray" else
+               "matrix-row-outlives-owner" if sc.startswith("matrix") else "lifetime:" + sc)
+        if key in done_keys:
+            continue
+        done_keys.add(key)
         ev = [v for k, v in bad.items() if k[0] == sc]
         chk.fail("lifetimes", key,
                  "a view read after its owners were released returns other data / touches freed memory (scenario %s)%s" % (
                      sc, "  [fix: %s]" % FIX[key] if key in FIX else ""),
                  {"python": ("import imath, gc\nva = imath.VIntArray(3); va.size[1] = 8\nr = va[1]\nfor j in range(8): r[j] = 100 + j\n"
                              "del r; row = va[1]; del va; gc.collect()\njunk = [imath.IntArray(8) for _ in range(64)]\n"
-                             "print([row[j] for j in range(8)])   # expected 100..107") if sc == "varray" else None,
+                             "print([row[j] for j in range(8)])   # expected 100..107") if sc == "varray" else
+                            ("import imath, gc\nm = imath.IntMatrix(3, 8)\nfor j in range(8): m[1][j] = 100 + j\nrow = m[1]; del m; gc.collect()\n"
+                             "junk = [imath.IntMatrix(3, 8) for _ in range(24)]\nfor k in junk:\n    k[0:3] = -12345\n"
+                             "print([row[j] for j in range(8)])   # expected 100..107") if sc.startswith("matrix") else None,
                   "native": ev[:2], "valgrind": vg_bad.get(sc, [])[:2], "fix": FIX.get(key)}, True)
 
 
@@ -690,7 +894,10 @@ def run(chk):
         chk.fail("classes", "harness-classes", "cannot introspect the imath module", classes, False)
         return
     chk.extra["array_classes"] = {"found": len(classes), "generic_with_codec": sorted(c for c, v in classes.items() if v["generic"] and v["codec"]),
-                                  "not_driven": sorted(c for c, v in classes.items() if not (v["generic"] and v["codec"]))}
+                                  "variable_arrays_driven(v ops, rows of)": {"VIntArray": "IntArray", "VFloatArray": "FloatArray",
+                                                                             "VV2iArray": "V2iArray", "VV2fArray": "V2fArray"},
+                                  "not_driven": sorted(c for c, v in classes.items() if not (v["generic"] and v["codec"])
+                                                       and c not in ("VIntArray", "VFloatArray", "VV2iArray", "VV2fArray"))}
 
     # ---- the Lean witness programs (Model/FixedArrayWitness.lean), replayed on the real module; each decides one
     #      model flag: the variant whose model output equals the real module's on that witness
@@ -702,16 +909,18 @@ def run(chk):
         elif l.strip() and cur:
             wit[cur].append(l.strip())
     FLAG_OF = {"masked-inplace-scalar": 0, "masked-inplace-vector": 0, "convert-from-masked": 1, "slice-empty-backward": 2,
-               "ifelse-readonly": 3, "mask-on-masked": 4}
+               "ifelse-readonly": 3, "mask-on-masked": 4, "component-of-masked": 5, "varray-size-overloads": 6}
     KEY_OF = {0: "masked-inplace-on-readonly", 1: "convert-ctor-from-masked", 2: "slice-negstep-start-below-range-raises",
-              3: "ifelse-on-readonly-source-raises", 4: "setitem-scalar-mask-on-masked-ref-ignores-mask"}
+              3: "ifelse-on-readonly-source-raises", 4: "setitem-scalar-mask-on-masked-ref-ignores-mask", 5: c19lib.COMP_KEY,
+              6: c19lib.VSIZE_KEY}
+    WCLS = {"component-of-masked": "V3iArray"}
     votes = {k: [] for k in range(c19lib.NFLAGS)}
     for name, prog in wit.items():
         fl = FLAG_OF.get(name)
         if fl is None:
             continue
         txt = "\n".join(prog) + "\n"
-        _, r = c19lib.run_real(txt)
+        _, r = c19lib.run_real(txt, WCLS.get(name, "IntArray"))
         outs = {}
         for val in (0, 1):
             cfg = [0] * c19lib.NFLAGS
@@ -727,7 +936,8 @@ def run(chk):
         chk.sample({"witness": name, "program": prog, "real_last": r[len(prog) - 1],
                     "model_asWritten_last": outs[0][1][len(prog) - 1], "model_repaired_last": outs[1][1][len(prog) - 1]})
         if decided != 1:
-            co.note_key(KEY_OF[fl], prog, "repaired model: " + outs[1][1][len(prog) - 1], r[len(prog) - 1], "IntArray")
+            co.note_key(KEY_OF[fl], prog, "repaired model: " + outs[1][1][len(prog) - 1], r[len(prog) - 1], WCLS.get(name, "IntArray"),
+                        "witness:%s:replayed" % name if fl >= 5 else None)
     best = tuple(1 if (votes[k] and all(v == 1 for v in votes[k])) else 0 for k in range(c19lib.NFLAGS))
     co.cfg = best
     # the primary theorems (readonly_invariant_current, slice_any_sign, ifelse_refines, convert_refines, ...) are stated
@@ -735,6 +945,9 @@ def run(chk):
     # reported through its finding key (note_key above), at full strength
     chk.oblige("variant:current-tree-is-Cfg.current(or fully repaired)", "correspondence", tuple(best[:4]) == (1, 1, 1, 1),
                dict(zip(c19lib.FLAG_NAMES, best)))
+    chk.oblige("variant:component-arrays-keep-the-mask(compView true)", "correspondence", best[5] == 1,
+               dict(zip(c19lib.FLAG_NAMES, best)))
+    chk.oblige("variant:varray-size-helper-overloads-reachable", "correspondence", best[6] == 1, dict(zip(c19lib.FLAG_NAMES, best)))
     chk.extra["model_variant"] = {"decided_by_correspondence": dict(zip(c19lib.FLAG_NAMES, [bool(b) for b in best])),
                                   "witness_votes": {c19lib.FLAG_NAMES[k]: v for k, v in votes.items()}}
 
@@ -765,18 +978,40 @@ def run(chk):
         sub.cfg = best
         sub.campaign("reduced", progs, c)
         return c, sub
+    def merge(c, sub):
+        for k, vv in sub.keys.items():
+            co.note_key(k, vv[0], vv[1], vv[2], c)
+            for ob in getattr(sub, "key_obls", {}).get(k, []):
+                co.note_key(k, vv[0], vv[1], vv[2], c, ob)
+        for op, vv in sub.mism.items():
+            co.mism.setdefault(op, vv)
+            co.mism_classes.setdefault(op, set()).add(c)
+        co.lines += sub.lines; co.nontrivial += sub.nontrivial; co.aliased += sub.aliased
+        co.opcount.update(sub.opcount); co.errcount.update(sub.errcount); co.kindcount.update(sub.kindcount); co.oob.update(sub.oob)
     with ThreadPoolExecutor(min(lib.NCPU, 12)) as exr:
         for c, sub in exr.map(typed_run, typed):
-            for k, vv in sub.keys.items():
-                co.note_key(k, vv[0], vv[1], vv[2], c)
-                for ob in getattr(sub, "key_obls", {}).get(k, []):
-                    co.note_key(k, vv[0], vv[1], vv[2], c, ob)
-            for op, vv in sub.mism.items():
-                co.mism.setdefault(op, vv)
-                co.mism_classes.setdefault(op, set()).add(c)
-            co.lines += sub.lines; co.nontrivial += sub.nontrivial; co.aliased += sub.aliased
-            co.opcount.update(sub.opcount); co.errcount.update(sub.errcount); co.kindcount.update(sub.kindcount); co.oob.update(sub.oob)
+            merge(c, sub)
     chk.extra["typed_classes_s"] = round(time.time() - t0, 1)
+
+    # ---- component arrays (`.x .y .z .w .r .g .b .a .min .max`) of every vector array class: the seven duplicated
+    #      `*Array_get` bodies x element types, dense / masked / read-only sources, reads and writes THROUGH them
+    t0 = time.time()
+    compcls = [c for c, v in sorted(classes.items()) if v.get("comp")]
+
+    def comp_run(c):
+        v = classes[c]
+        fullc = c == "V3iArray"
+        narrow = v["comp"]["ccls"] in ("UnsignedCharArray", "SignedCharArray")
+        progs = list(c19_gen.exhaustive_comp(v["comp"]["w"], maxlen=(4 if fullc or big else 3), iadd=not narrow, full=fullc or big))
+        sub = Corr(chk)
+        sub.cfg = best
+        sub.campaign("component", progs, c)
+        return c, sub
+    with ThreadPoolExecutor(min(lib.NCPU, 12)) as exr:
+        for c, sub in exr.map(comp_run, compcls):
+            merge(c, sub)
+    chk.extra["component_classes"] = {c: classes[c]["comp"] for c in compcls}
+    chk.extra["component_s"] = round(time.time() - t0, 1)
 
     # ---- random op sequences
     t0 = time.time()
@@ -790,8 +1025,58 @@ def run(chk):
     chk.extra["random_s"] = round(time.time() - t0, 1)
 
     # ---- FixedArray2D / FixedMatrix
+    t0 = time.time()
     co.campaign("array2d", list(c19_gen.exhaustive_2d(4 if not chk.thorough else 5)), "IntArray")
     co.campaign("matrix", list(c19_gen.exhaustive_matrix(4 if not chk.thorough else 6)), "IntArray")
+    # every other FixedArray2D / FixedMatrix class (elements of the class under test; masks stay IntArray2D)
+    p2 = list(c19_gen.exhaustive_2d(2 if not chk.thorough else 4))
+    pm = list(c19_gen.exhaustive_matrix(3 if not chk.thorough else 5))
+    jobs = [("array2d", p2, c) for c in ("FloatArray", "DoubleArray", "C4fArray", "C4cArray") if c in classes] + \
+           [("matrix", pm, c) for c in ("FloatArray", "DoubleArray") if c in classes]
+
+    def d2_run(job):
+        name, progs, c = job
+        sub = Corr(chk)
+        sub.cfg = best
+        sub.campaign(name, progs, c)
+        return c, sub
+    with ThreadPoolExecutor(6) as exr:
+        for c, sub in exr.map(d2_run, jobs):
+            merge(c, sub)
+    chk.extra["array2d_matrix_classes"] = {"FixedArray2D": ["IntArray2D", "FloatArray2D", "DoubleArray2D", "Color4fArray2D", "Color4cArray2D"],
+                                           "FixedMatrix": ["IntMatrix", "FloatMatrix", "DoubleMatrix"]}
+    # component arrays of the 2-D colour arrays (Color4Array2D_get): direct nested-list check on the real module
+    rc, out = lib.sh([pyimath.PYTHON, os.path.join(c19lib.HPY, "c19_comp2d.py")], env=pyimath.env(), timeout=300)
+    try:
+        c2 = json.loads(out[out.index("{"):])
+        chk.oblige("array2d:component-arrays(.r .g .b .a)=nested-lists", "spec-correspondence", not c2["bad"] and bool(c2["classes"]),
+                   {"cases": c2["cases"], "classes": c2["classes"], "unusable(no Python class for the component array)": c2.get("unusable"),
+                    "bad": [b["what"] for b in c2["bad"]][:5]})
+        chk.count(c2["cases"], c2["cases"])
+        if c2["bad"]:
+            chk.fail("array2d:component-arrays(.r .g .b .a)=nested-lists", "array2d-component:" + c2["bad"][0]["what"].split("(")[0],
+                     "component array of a 2-D colour array selects / writes the wrong cells: %s" % c2["bad"][0]["what"], c2["bad"][0], True)
+    except Exception:
+        chk.oblige("array2d:component-arrays(.r .g .b .a)=nested-lists", "spec-correspondence", False, out[-400:])
+        chk.fail("array2d:component-arrays(.r .g .b .a)=nested-lists", "array2d-component-harness", "c19_comp2d.py failed",
+                 {"output": out[-1500:]}, False)
+    chk.extra["array2d_matrix_s"] = round(time.time() - t0, 1)
+
+    # ---- FixedVArray: nested lists; all four classes (rows of IntArray / FloatArray / V2iArray / V2fArray)
+    t0 = time.time()
+    vprogs = list(c19_gen.exhaustive_varray(4, 5 if chk.thorough else 4, full=True))
+    co.campaign("varray", vprogs, "IntArray")
+    vsmall = list(c19_gen.exhaustive_varray(3, 3, full=chk.thorough))
+
+    def v_run(c):
+        sub = Corr(chk)
+        sub.cfg = best
+        sub.campaign("varray", vsmall, c)
+        return c, sub
+    with ThreadPoolExecutor(3) as exr:
+        for c, sub in exr.map(v_run, [c for c in ("FloatArray", "V2iArray", "V2fArray") if c in classes]):
+            merge(c, sub)
+    chk.extra["varray_s"] = round(time.time() - t0, 1)
 
     chk.count(co.lines, co.nontrivial)
     chk.extra["ops_by_kind"] = dict(co.opcount.most_common())
@@ -803,7 +1088,7 @@ def run(chk):
     t0 = time.time()
     # ---- model / implementation mismatches: the model no longer describes the code
     for op, (prog, m, r, cls) in sorted(co.mism.items()):
-        small = shrink_model(prog, co.cfg, cls) if not op.startswith(("d2", "m")) and len(co.mism) < 6 else prog
+        small = shrink_model(prog, co.cfg, cls) if not op.startswith(("d2", "m", "v", "comp", "allocw")) and len(co.mism) < 6 else prog
         chk.fail("corr:model=real", "model-mismatch:" + op,
                  "the real module and the model (variant %s) disagree on `%s`" % (co.cfg, small[-1]),
                  {"program": small, "model": m, "real": r, "class": cls, "classes": sorted(co.mism_classes.get(op, [])),
@@ -811,7 +1096,7 @@ def run(chk):
     # ---- findings keyed by call site
     for key, (prog, a, b, clss) in sorted(co.keys.items()):
         cls0 = "IntArray" if "IntArray" in clss else sorted(clss)[0]
-        small = shrink_spec(prog, key, cls0) if cls0 == "IntArray" and not prog[-1].startswith(("d2", "m")) else prog
+        small = shrink_spec(prog, key, cls0) if cls0 == "IntArray" and not prog[-1].startswith(("d2", "m", "v ")) else prog
         chk.fail(sorted(getattr(co, "key_obls", {}).get(key, [])) or "corr:real=python-list", key,
                  "%s: `%s` — expected %s, real module gives %s (%d classes)%s" % (
                      key, small[-1], a.split(";")[0], b.split(";")[0], len(clss), "  [fix: %s]" % FIX[key] if key in FIX else ""),
